@@ -56,7 +56,9 @@ def g_obs(o):
     ts = glist(o["ts"], lambda t: "(mkTobs %s %s %s)" % (
         g_res(t["tx"], lambda x: "%d" % x), g_res(t["meta"], lambda m: "(%d, %d, %d)" % tuple(m)),
         g_res(t["rc"], lambda x: "%d" % x)))
-    return "(mkObs (mkMeta %d %d %d) %s %s %s)" % (o["meta"][0], o["meta"][1], o["meta"][2], hs, xs, ts)
+    st = o.get("stored") or o["meta"]
+    return "(mkObs (mkMeta %d %d %d) (mkMeta %d %d %d) %s %s %s)" % (o["meta"][0], o["meta"][1], o["meta"][2],
+                                                                  st[0], st[1], st[2], hs, xs, ts)
 
 
 def g_case(hist, out):
@@ -74,8 +76,9 @@ def g_case(hist, out):
         else:
             ops.append("OReopen")
     tr = glist(out.get("steps") or [], lambda s: "(%d, %s)" % (s["code"], g_obs(s["obs"])))
-    return "(mkCase %s %s (mkU %d%%nat %s %s) %s %s %s %s)" % (
-        "true" if hist.get("full") or hist.get("exec") else "false", "true" if hist.get("exec") else "false",
+    return "(mkCase %s %s %s (mkU %d%%nat %s %s) %s %s %s %s)" % (
+        "true" if hist.get("full") or hist.get("exec") else "false",
+        "false" if hist.get("ldb") == "multi" else "true", "true" if hist.get("exec") else "false",
         hist["kh"], g_nl(out["uh"]), g_nl(out["ut"]),
         glist(ops), tr,
         glist(out["hash_tbl"], lambda p: "(%s, %d)" % (g_hdr(p[0]), p[1])),
@@ -170,9 +173,12 @@ def gen_structured(r, full, nops, want_dup=False, deep=False):
                 # (in full mode a rollback deeper than the journal window is refused)
                 pool.extend(x for x in live[t:] if x)
                 live = live[:t]
+            if r.random() < 0.45:
+                ops.append(dict(op="o"))      # restart right after the rollback, before the next persist:
+                                              # the STORED chain meta is what the next process sees
         else:
             ops.append(dict(op="o"))
-    return dict(full=full, kh=kh_of(ops), ops=ops)
+    return dict(full=full, ldb=r.choice(["normal", "normal", "multi"]), kh=kh_of(ops), ops=ops)
 
 
 def gen_malformed(r, nops):
@@ -203,7 +209,7 @@ def gen_malformed(r, nops):
             ops.append(dict(op="r", t=r.randrange(0, np + 2)))
         else:
             ops.append(dict(op="o"))
-    return dict(full=False, kh=kh_of(ops), ops=ops)
+    return dict(full=False, ldb=r.choice(["normal", "multi"]), kh=kh_of(ops), ops=ops)
 
 
 # ----------------------------------------------------------------------------- classification
@@ -431,6 +437,7 @@ def run_inner(ctx):
         for i in range(14 if ctx.quick else 400):
             hists.append(gen_exec(r, r.randrange(3, 12)))
         dist = dict(corpus=ncorp, histories=len(hists), full=sum(1 for h in hists if h.get("full")),
+                    multi_leveldb=sum(1 for h in hists if h.get("ldb") == "multi"),
                     executor_level=sum(1 for h in hists if h.get("exec")),
                     executor_redeliveries=sum(1 for h in hists if h.get("exec") for o in h["ops"] if o["op"] == "y"),
                     executor_deep_redelivery_histories=sum(1 for h in hists if h.get("exec") and deep_redelivery(h)),
